@@ -26,17 +26,21 @@ package omap
 //@   ensures  [C04] zeromap: m.m == nil ==> !result.1
 //@   ensures  [C04] found: m.m != nil ==> forall kv stree.KV[T, U] :: {rank(m.m.compare, kv)} kv.Key == key ==> (result.1 == (rank(m.m.compare, kv) in m.m.elems))
 //@   ensures  [C04] absent: !result.1 ==> result.0 == zero
+//@   ensures  [C04] value: result.1 ==> forall kv stree.KV[T, U] :: {rank(m.m.compare, kv)} kv.Key == key ==> result.0 == m.m.vals[rank(m.m.compare, kv)].Value
 //@
 //@ func (Map).Get
 //@   requires [C04] mapInv(m)
 //@   ensures  [C04] absent: (m.m == nil ==> result == zero)
+//@   ensures  [C04] value: m.m != nil ==> forall kv stree.KV[T, U] :: {rank(m.m.compare, kv)} kv.Key == key ==> (rank(m.m.compare, kv) in m.m.elems ==> result == m.m.vals[rank(m.m.compare, kv)].Value) && (!(rank(m.m.compare, kv) in m.m.elems) ==> result == zero)
 //@
 //@ func (Map).Set
 //@   requires [C04] m.m != nil && mapInv(m)
 //@   ensures  [C04] inv: mapInv(m)
 //@   ensures  [C04] set: forall kv stree.KV[T, U] :: {rank(m.m.compare, kv)} kv.Key == key ==> (forall k int :: {k in m.m.elems} k in m.m.elems <==> (k == rank(m.m.compare, kv) || old(k in m.m.elems)))
 //@   ensures  [C04] fresh: forall kv stree.KV[T, U] :: {rank(m.m.compare, kv)} kv.Key == key ==> (result == !old(rank(m.m.compare, kv) in m.m.elems))
-//@   modifies m.m.root, m.m.size, m.m.max, m.m.elems, every(m.m.root.left), every(m.m.root.right), every(m.m.root.X), every(m.m.root.keys), every(m.m.root.desc), every(m.m.root.cnt)
+//@   ensures  [C04] stored: forall kv stree.KV[T, U] :: {rank(m.m.compare, kv)} kv.Key == key ==> m.m.vals[rank(m.m.compare, kv)].Key == key && m.m.vals[rank(m.m.compare, kv)].Value == value
+//@   ensures  [C04] others: forall kv stree.KV[T, U] :: {rank(m.m.compare, kv)} kv.Key == key ==> (forall k int :: {m.m.vals[k]} k in m.m.elems && k != rank(m.m.compare, kv) ==> m.m.vals[k] == old(m.m.vals[k]))
+//@   modifies m.m.root, m.m.size, m.m.max, m.m.elems, every(m.m.root.left), every(m.m.root.right), every(m.m.root.X), every(m.m.root.keys), every(m.m.root.desc), every(m.m.root.cnt), every(m.m.root.rep), m.m.vals
 //@
 //@ func (Map).Delete
 //@   requires [C04] mapInv(m)
@@ -44,7 +48,8 @@ package omap
 //@   ensures  [C04] zeromap: m.m == nil ==> !result
 //@   ensures  [C04] set: m.m != nil ==> forall kv stree.KV[T, U] :: {rank(m.m.compare, kv)} kv.Key == key ==> (forall k int :: {k in m.m.elems} k in m.m.elems <==> (old(k in m.m.elems) && k != rank(m.m.compare, kv)))
 //@   ensures  [C04] found: m.m != nil ==> forall kv stree.KV[T, U] :: {rank(m.m.compare, kv)} kv.Key == key ==> (result == old(rank(m.m.compare, kv) in m.m.elems))
-//@   modifies m.m.root, m.m.size, m.m.max, m.m.elems, every(m.m.root.left), every(m.m.root.right), every(m.m.root.X), every(m.m.root.keys), every(m.m.root.desc), every(m.m.root.cnt)
+//@   ensures  [C04] others: m.m != nil ==> forall k int :: {m.m.vals[k]} k in m.m.elems ==> m.m.vals[k] == old(m.m.vals[k])
+//@   modifies m.m.root, m.m.size, m.m.max, m.m.elems, every(m.m.root.left), every(m.m.root.right), every(m.m.root.X), every(m.m.root.keys), every(m.m.root.desc), every(m.m.root.cnt), every(m.m.root.rep), m.m.vals
 //@
 //@ func (Map).Clear
 //@   requires [C04] mapInv(m)
